@@ -25,6 +25,8 @@ pub struct Info {
     pub latency_ms: u64,
     pub observe_ms: u64,
     pub scripted: Vec<bool>,
+    /// transaction id used by a scripted sender (there is no Put to learn it from)
+    pub fixed_id: Option<TransactionID>,
 }
 pub struct Case {
     pub sc: Scenario,
@@ -54,6 +56,7 @@ impl Case {
             latency_ms: sc.latency_ms,
             observe_ms: sc.observe_ms,
             scripted: sc.entities.iter().map(|e| e.scripted).collect(),
+            fixed_id: None,
         };
         Case { sc, info }
     }
